@@ -1,5 +1,6 @@
 import Driver.Util
 import TurnModel.Model.Server
+import TurnModel.Model.ServerEvents
 namespace Drv
 open Turn Turn.Srv
 
@@ -102,14 +103,23 @@ def showOut : Out → String
   | .pipeToClient k d => s!"p2c {showKey k} {toHex d}"
   | .dataClosed k => s!"dclosed {showKey k}"
 
+def showEnt (sign : String) : Ent → List String
+  | .alloc k r tcp => [s!"ev alloc{sign} {showKey k} {showAddr r}", s!"net {if sign == "+" then "open" else "close"} {if tcp then "tcp" else "udp"} {showAddr r}"]
+  | .perm k ip => [s!"ev perm{sign} {showKey k} {showIP ip}"]
+  | .chan k n p => [s!"ev chan{sign} {showKey k} {n}@{showAddr p}"]
+
+def showEv : Ev → List String
+  | .created e => showEnt "+" e
+  | .deleted e => showEnt "-" e
+
 def insertSorted (x : String) : List String → List String
   | [] => [x]
   | y :: ys => if x ≤ y then x :: y :: ys else y :: insertSorted x ys
 
 def sortStrs (l : List String) : List String := l.foldl (fun acc x => insertSorted x acc) []
 
-def showOuts (os : List Out) : String :=
-  if os.isEmpty then "-" else String.intercalate " | " (sortStrs (os.map showOut))
+def showOuts (os : List Out) (evs : List Ev := []) : String :=
+  if os.isEmpty && evs.isEmpty then "-" else String.intercalate " | " (sortStrs (os.map showOut ++ evs.flatMap showEv))
 
 def showAlloc (a : Alloc) : String :=
   s!"{showKey a.key} r={showAddr a.relay} p=[" ++ String.intercalate "," (sortStrs (a.perms.map (fun p => showIP p.ip))) ++
@@ -134,8 +144,8 @@ def srvStep (d : SrvDrv) (toks : List String) : Option (SrvDrv × String) :=
   | _ =>
     match parseOp toks with
     | some op =>
-      let (s', outs) := step d.cfg d.st op
-      some ({ d with st := s' }, showOuts outs)
+      let (s', outs, evs) := stepE d.cfg d.st op
+      some ({ d with st := s' }, showOuts outs evs)
     | none => none
 
 end Drv
